@@ -93,11 +93,27 @@ func c10Corpus(thorough bool) []c10Req {
 	}
 	inv := invalidCorpus()
 	for i, r := range inv {
-		if i == 1 || i == 3 || i == 19 || strings.Contains(r.Rule, "unknown-ordering") || strings.Contains(r.Rule, "unknown-reference-type") || strings.Contains(r.Rule, "ratio-above-one") {
+		if i == 1 || i == 3 || i == 19 || strings.Contains(r.Rule, "unknown-ordering") || strings.Contains(r.Rule, "unknown-reference-type") || strings.Contains(r.Rule, "ratio-above-one") ||
+			(strings.Contains(r.Rule, "-of-50") && !strings.HasPrefix(r.Rule, "electreIII")) {
 			out = append(out, c10Req{Name: r.Name, Body: J(r.Req)})
 		}
 	}
 	return out
+}
+
+// c10Heavy: long, deep evaluations for the free-running pass (too many steps for the statement-level explorer).
+func c10Heavy() []c10Req {
+	mk := func(method string, n int) c10Req {
+		ids := make([]string, n)
+		vals := make([][]float64, n)
+		for i := range ids {
+			ids[i] = fmt.Sprintf("h%03d", (i*7)%n)
+			vals[i] = []float64{float64(i) * 2, float64(i)*2 + 1}
+		}
+		req := genericRequest(method, []string{"c1", "c2"}, -1, ids, vals, ids, []float64{1, 2})
+		return c10Req{Name: fmt.Sprintf("heavy/%s/%d-alternatives", method, n), Body: J(req)}
+	}
+	return []c10Req{mk("electreIII", 130), mk("owa", 200), mk("majorityHeuristic", 60), mk("weightedSum", 200)}
 }
 
 type c10Pair struct{ a, b int }
@@ -586,6 +602,34 @@ func RaceMain(tier string) int {
 				if !bytes.Equal(outs[k], soloOut[idx[k]]) {
 					mismatches++
 					fmt.Printf("MISMATCH request %s answered differently when run concurrently: %s\n", corpus[idx[k]].Name, firstDiff(string(soloOut[idx[k]]), string(outs[k])))
+				}
+			}
+		}
+	}
+	// heavy twins: requests whose evaluation is long and deep (130 strictly ordered ELECTRE alternatives, 200 OWA
+	// alternatives, 60 majority alternatives), eight copies at once — anything that adds up over the requests in progress
+	// (counters, budgets, shared work queues) shows here and nowhere in the small corpus
+	for _, hv := range c10Heavy() {
+		solo := hv.run()
+		for round := 0; round < rounds/2; round++ {
+			var wg sync.WaitGroup
+			gate := make(chan struct{})
+			outs := make([][]byte, 8)
+			for k := range outs {
+				wg.Add(1)
+				go func(k int) {
+					defer wg.Done()
+					<-gate
+					outs[k] = hv.run()
+				}(k)
+			}
+			close(gate)
+			wg.Wait()
+			for k := range outs {
+				runs++
+				if !bytes.Equal(outs[k], solo) {
+					mismatches++
+					fmt.Printf("MISMATCH request %s answered differently when eight copies run concurrently: %s\n", hv.Name, firstDiff(string(solo), string(outs[k])))
 				}
 			}
 		}
